@@ -29,9 +29,9 @@ type World struct {
 	IntBV    bool // integers are bit-vectors of their exact width (`mode bv`)
 	dts      map[string]*DT
 	dtOrder  []*DT
-	decls    []string          // declare-fun / define-fun lines, in order
-	declared map[string]bool   // names
-	typeIDs  map[string]int    // dynamic type tags for interfaces
+	decls    []string        // declare-fun / define-fun lines, in order
+	declared map[string]bool // names
+	typeIDs  map[string]int  // dynamic type tags for interfaces
 	typeByID map[int]types.Type
 	fconsts  map[uint64]*Term
 	nfresh   int
